@@ -10,6 +10,17 @@ use std::sync::OnceLock;
 
 pub struct C09;
 
+/// This check is cheap: the quick tier already runs the full alphabet (what used to be the
+/// thorough tier); `deep` marks the extras that only the thorough tier adds.
+#[allow(dead_code)]
+fn full(_t: Tier) -> bool {
+    true
+}
+#[allow(dead_code)]
+fn deep(t: Tier) -> bool {
+    t == Tier::Thorough
+}
+
 #[derive(Clone, Debug)]
 struct Case {
     label: String,
@@ -21,7 +32,7 @@ struct Case {
 
 fn framings(tier: Tier) -> Vec<(String, Vec<u8>, usize, bool)> {
     // (label, message, body length, chunked)
-    let thorough = tier == Tier::Thorough;
+    let thorough = full(tier);
     let mut v = Vec::new();
     let cls: Vec<usize> = if thorough {
         vec![1, 1023, 1024, 1025, 3000, 70000]
@@ -48,7 +59,7 @@ fn followers(tier: Tier) -> Vec<(&'static str, Vec<u8>)> {
     let mut two = get("/n1");
     two.extend_from_slice(&post_cl("/n2", b"tail-body"));
     v.push(("get+post", two));
-    if tier == Tier::Thorough {
+    if full(tier) {
         let mut c = post_chunked("/n1", b"follow", &[2, 4]);
         c.extend_from_slice(&get("/n2"));
         v.push(("chunked+get", c));
@@ -59,10 +70,10 @@ fn followers(tier: Tier) -> Vec<(&'static str, Vec<u8>)> {
 fn cases(tier: Tier) -> &'static Vec<Case> {
     static Q: OnceLock<Vec<Case>> = OnceLock::new();
     static T: OnceLock<Vec<Case>> = OnceLock::new();
-    let cell = if tier == Tier::Quick { &Q } else { &T };
+    let cell = if !full(tier) { &Q } else { &T };
     cell.get_or_init(|| {
         let mut v = Vec::new();
-        let read_sizes: Vec<usize> = if tier == Tier::Thorough { vec![1, 7, 4096] } else { vec![7, 4096] };
+        let read_sizes: Vec<usize> = if full(tier) { vec![1, 7, 4096] } else { vec![7, 4096] };
         for (fl, msg, n, chunked) in framings(tier) {
             // consumption prefixes: 0, 1, n/2, n-1, n bytes (without seeing EOF), to EOF
             let mut prefixes: Vec<(String, ReadPlan, bool)> = vec![("read0".into(), ReadPlan::None, false)];
